@@ -439,6 +439,13 @@ func (s *Set) Value(_ context.Context, t *dials.Type) (reflect.Value, error) {
 		}
 
 		fval := reflect.ValueOf(g.Get())
+		// Some flag.Values hand back a pointer to their storage (the
+		// complex and text-unmarshaler wrappers): work with the pointee
+		// when that is what converts to the field's type.
+		if fval.Kind() == reflect.Ptr && !fval.IsNil() && fval.Type() != ffield.Type() &&
+			fval.Type().Elem().ConvertibleTo(stripTypePtr(ffield.Type())) {
+			fval = fval.Elem()
+		}
 		switch fval.Type() {
 		case ffield.Type().Elem():
 			ptrVal.Elem().Set(fval)
